@@ -1,9 +1,12 @@
 package sim
 
 import (
+	"math/rand"
+
 	"bytes"
 	"encoding/hex"
 	"fmt"
+	authtypes "github.com/cosmos/cosmos-sdk/x/auth/types"
 	"strings"
 	"time"
 
@@ -22,15 +25,21 @@ var vmPrograms = map[string]string{
 	"revert":       "60006000fd",
 	"loop":         "5b600056",
 	"invalid":      "fe",
-	"store":        "60003560005500",             // slot0 := calldata[0:32]
-	"storeRevert":  "600160005560006000fd",       // slot0 := 1 ; REVERT
-	"storeInvalid": "6001600055fe",               // slot0 := 1 ; INVALID
-	"suicide":      "33ff",                       // SELFDESTRUCT(caller)
-	"suicideTo":    "600035ff",                   // SELFDESTRUCT(calldata[0:32])
-	"log":          "60006000a000",               // LOG0 ; STOP
-	"logRevert":    "60006000a060006000fd",       // LOG0 ; REVERT
-	"forward":      "600060006000600034600035" + "5af100",          // CALL(gas, calldata[0:32], callvalue, 0,0,0,0) ; STOP
+	"store":        "60003560005500",                                    // slot0 := calldata[0:32]
+	"storeRevert":  "600160005560006000fd",                              // slot0 := 1 ; REVERT
+	"storeInvalid": "6001600055fe",                                      // slot0 := 1 ; INVALID
+	"suicide":      "33ff",                                              // SELFDESTRUCT(caller)
+	"suicideTo":    "600035ff",                                          // SELFDESTRUCT(calldata[0:32])
+	"log":          "60006000a000",                                      // LOG0 ; STOP
+	"logRevert":    "60006000a060006000fd",                              // LOG0 ; REVERT
+	"forward":      "600060006000600034600035" + "5af100",               // CALL(gas, calldata[0:32], callvalue, 0,0,0,0) ; STOP
 	"innerCall":    "6000600060006000600060003" + "55af150600160015500", // CALL(gas, calldata[0:32], 0, ...) ; POP ; slot1 := 1 ; STOP
+}
+
+// moduleTarget: a module account that exists from genesis (the bank's blocked addresses)
+func moduleTarget(rng *rand.Rand) sdk.AccAddress {
+	names := []string{"gov", "shield", "distribution", "fee_collector", "bonded_tokens_pool", "not_bonded_tokens_pool", "mint"}
+	return authtypes.NewModuleAddress(names[rng.Intn(len(names))])
 }
 
 func initCode(runtime []byte) []byte {
@@ -249,6 +258,8 @@ func BankVMProfile(seed int64, out *Recorder, nOps int) *Chain {
 				toAddr := c.Accts[rng.Intn(len(c.Accts))].Addr
 				if rng.Intn(4) == 0 { // the all-zero address (Burrow's global-permissions account) is an account like any other to the bank
 					toAddr = make(sdk.AccAddress, 20)
+				} else if rng.Intn(4) == 0 { // a module account: the bank refuses plain sends to them, and so must the VM
+					toAddr = moduleTarget(rng)
 				}
 				value := uint64(amounts(who))
 				m := cvmtypes.NewMsgCall(ac.Addr.String(), toAddr.String(), value, nil)
@@ -281,6 +292,14 @@ func BankVMProfile(seed int64, out *Recorder, nOps int) *Chain {
 				data = w
 				desc["slot0"] = hex.EncodeToString(w)
 			case "forward", "innerCall":
+				if d.Kind == "forward" && rng.Intn(8) == 0 { // the value forwarded to a module account by an inner CALL
+					ma := moduleTarget(rng)
+					data = word32(ma)
+					desc["target"] = Hex(ma)
+					desc["targetKind"] = "none"
+					desc["targetExists"] = c.App.VerifAccountKeeper().GetAccount(c.Ctx(), ma) != nil
+					break
+				}
 				t := pickContract("stop", "store", "revert", "storeRevert", "logRevert")
 				if t == nil {
 					continue
@@ -299,8 +318,10 @@ func BankVMProfile(seed int64, out *Recorder, nOps int) *Chain {
 					t = d.Addr
 				case 3:
 					t = ac.Addr
-					if rng.Intn(2) == 0 {
+					if x := rng.Intn(3); x == 0 {
 						t = make([]byte, 20) // the all-zero address
+					} else if x == 1 {
+						t = moduleTarget(rng)
 					}
 				case 4:
 					t = c.Accts[rng.Intn(len(c.Accts))].Addr
